@@ -42,6 +42,8 @@ inline ScriptFn scriptsOf(const Json::Value& scripts) {
       e = &tbl[id + "@" + key];
     } else if (tbl.isMember(id)) {
       e = &tbl[id];
+    } else if (tbl.isMember("*")) {
+      e = &tbl["*"];
     }
     if (!e) return Json::Value();
     if (e->isArray()) {
